@@ -248,22 +248,22 @@ def r01_4(prog, rep):
 
 def run(prog, rep, tier, snap):
     rep.rule("R01.1", "applicability matrix: every applicable rule part influences every filler's output", 80)
-    r01_1(prog, rep, tier)
+    rep.call(r01_1, prog, rep, tier)
     rep.rule("R01.2", "every RRULE keyword reaches a case that assigns its field", 16)
-    r01_2(prog, rep)
+    rep.call(r01_2, prog, rep)
     rep.rule("R01.3", "refill dispatches every FREQ to its filler", 7)
-    r01_3(prog, rep)
+    rep.call(r01_3, prog, rep)
     rep.rule("R01.4", "single expansion path", 9)
-    r01_4(prog, rep)
+    rep.call(r01_4, prog, rep)
     from . import c16
     from ..rules import bitint
     rep.rule("R01.5", "the parser admits every value RFC 5545 allows for a rule part", 7)
-    bitint.r01_5(prog, rep)
+    rep.call(bitint.r01_5, prog, rep)
     from . import c08
     rep.rule("R08.5", "every month wrap carries the year; modular month reductions are bracketed (shared with C08)", 12)
-    c08.r08_5(prog, rep)
+    rep.call(c08.r08_5, prog, rep)
     rep.rule("R16.2", "UNTIL / DTSTART guards dominate every commit (shared with C16)", 20)
-    c16.r16_2(prog, rep)
+    rep.call(c16.r16_2, prog, rep)
     rep.rule("R16.3", "COUNT accounting (shared with C16)", 9)
-    c16.r16_3(prog, rep)
+    rep.call(c16.r16_3, prog, rep)
 READY = True
